@@ -410,8 +410,12 @@ PS_C14 = {"poll_point_on_frame", "poll_points_pairwise_distinct", "poll_at_most_
 PM_C14 = {"two_D_directions", "second_half_is_negated_first_half", "entries_are_integers", "entries_bounded_by_mesh_ratio", "basis_is_nonsingular",
           "signed_coordinate_directions_when_ratio_one"}
 PROPS["C14"] = dict(
-    jobs=lambda tier: pm_jobs(tier) + ps_jobs(tier, levels=(0,)), labels=PS_C14 | PM_C14, required=sorted(PS_C14 | PM_C14),
-    bounds=dict(quick="direction generator: D<=3, mesh ratio in {1,2,4}, entries symbolic integers (every value), every permutation, symbolic positive poll scale for D<=2; poll step as C13 (deterministic mode)",
+    jobs=lambda tier: pm_jobs(tier) + ps_jobs(tier, levels=(0,)) +
+    # option force_poll_mesh: candidates are re-snapped to the search mesh; from a search-mesh incumbent (pinned to concrete
+    # search-mesh points off the poll mesh: a symbolic mesh multiple did not finish) they stay on the frame
+    [J("h_ps:HPS", D=1, k0=k0, complete_poll=cp, accelerate=True, level=0, budget_left=10, cons=None, fault=False, M=0, extra_opts={"force_poll_mesh": True}, u_fixed=uf)
+     for k0 in (0, -1, -3) for cp in (False, True) for uf in (0.3125, -81.0 / 1024)], labels=PS_C14 | PM_C14, required=sorted(PS_C14 | PM_C14),
+    bounds=dict(quick="direction generator: D<=3, mesh ratio in {1,2,4}, entries symbolic integers (every value), every permutation, symbolic positive poll scale for D<=2; poll step as C13 (deterministic mode); option force_poll_mesh with the incumbent pinned to 2 concrete search-mesh points (mesh 2^0, 2^-1, 2^-3)",
                 thorough="as quick plus symbolic poll scale for D=3 and the D=2 poll step with the real generator"),
     outside=["'up to rounding': exact in real arithmetic", "gp poll_scale other than 1 inside the poll step (the generator harness covers symbolic scales)"],
     time_limit=dict(quick=600, thorough=5400))
